@@ -291,8 +291,23 @@ def run_check(pid, tier, harnesses, level="model_checking", assumptions=(), expl
                         elif k is not None:
                             knowns.append(dict(harness=h.name, label=cf["label"], known=k["what"]))
                         elif not any(v["label"].split(":")[0] == base for v in violations + knowns):
-                            # a concrete failure on a path where the symbolic run discharged the same obligation
+                            # a concrete failure on a path where the symbolic run discharged the same obligation: the LP
+                            # contract does not determine what the real solver did here (e.g. which optimal vertex it
+                            # returned).  The failing instance is a run of the unmodified build on real GLPK, decided by
+                            # the same oracle as any confirmed counterexample - it is reported as a violation if it
+                            # reproduces, and counted as a stub/solver mismatch in the evidence either way.
                             mismatches.append(dict(harness=h.name, solver=solver, inputs=w, failure=cf))
+                            try:
+                                again = vsym.run_concrete(lambda E: (env.for_path(E, solver), h.fn(E))[1], w, tol=h.tol)
+                            except (Exception, vsym.HarnessError):
+                                again = None
+                            if again is not None and any(x["label"].split(":")[0] == base for x in again.failures):
+                                rec = dict(harness=h.name, label=cf["label"], sig=_sig(cf), count=1, detail=cf.get("detail"),
+                                           inputs=w, from_witness_replay=True)
+                                rec["replay"] = write_replay(pid, h.name, dict(cf, inputs=w), dict(concrete_failures=[cf]))
+                                violations.append(rec)
+                                mismatches.pop()
+                                cov["witness_failures_promoted"] = cov.get("witness_failures_promoted", 0) + 1
         hc["witness_replays"] = nval
         cov["traces_validated_against_impl"] += nval
     cov["functions_encoded"] = sorted(funcs)
